@@ -1,7 +1,8 @@
 /-
 Line-protocol driver for the C02 interleaving model (Model/VersionSet.lean).
 
-  init <v0> <f0> <threshold> <rollup:0|1> [recheck:0|1]   reset; family's first version id, next file number
+  init <v0> <f0> <threshold> <rollup:0|1|2> [recheck:0|1]   reset; family's first version id, next file number;
+                         rollup = number of rollup target intervals (0: none, 1: [5m], 2: [5m, 1h]; intervals in minutes)
   acquire <r>            reader r takes a snapshot
   getr <r> <f>           snapshot.GetReader(f)
   find <r> <k>           snapshot.FindReaders(k) + Get(k) on every reader
@@ -15,7 +16,8 @@ Line-protocol driver for the C02 interleaving model (Model/VersionSet.lean).
                          (`at=blocked`: its next step needs the version-set mutex / compacting flag);
                          +j<k>: jobs that were blocked and were released by this step, run next
   spawn flush k:t k:t .. | spawn compact | spawn rollup f f .. | spawn delobs
-  rollupjob              the real family.rollup() with no target store (nothing rolled up) + its cleanup
+  rollupjob iv ..        the real family.rollup(); iv .. = the target intervals whose target store is open (those
+                         rollups succeed, every other target is skipped) + its deferred deleteObsoleteFiles
   par j<a> j<b> ..       the commits of these jobs run concurrently (released together, unscheduled)
   cleanup f f ..         storeCache.Cleanup closed exactly these entries
 Every answer is `<result> | <state>`; unknown or ill-formed lines answer `bad-op`.
@@ -39,7 +41,8 @@ def codeCfg0 : Cfg :=
   { recheck := Generated.C02.removeVersionRechecksRef, cloneLocked := Generated.C02.commitCloneUnderLock,
     allocLocked := Generated.C02.allocUnderCommitLock, findErrReleases := Generated.C02.findErrReleases,
     pendFirst := Generated.C02.pendBeforeCreate, closeCAS := Generated.C02.closeIsCAS,
-    getReaderAtomic := Generated.C02.getReaderOneSection, listFirst := Generated.C02.listBeforeLive }
+    getReaderAtomic := Generated.C02.getReaderOneSection, listFirst := Generated.C02.listBeforeLive,
+    rollDelPerInterval := Generated.C02.rollupDelPerInterval }
 
 def D.empty : D := { cfg := codeCfg0, st := St.init 0 0, readers := [], ok := false }
 
@@ -54,7 +57,11 @@ def showState (d : D) : String :=
   let files := List.range s.nextFile
   let cache := files.filterMap (fun f => (s.cref f).map (fun r => s!"{f}:{r}"))
   let pr (vs : List Nat) := ",".intercalate (vs.map (fun v => s!"{v}:{s.ref v}"))
-  s!"cur={s.cur} act={pr act} rv={pr rvs} disk={commaNat (sortedNat s.disk)} pend={commaNat (sortedNat s.pending)} cache={",".intercalate cache} lock={if s.lock.isSome then 1 else 0} cmp={if s.compacting then 1 else 0}"
+  let marks := (files.flatMap (fun f => (sortedNat (((s.ver s.cur).rollup.filter (fun p => p.1 == f)).map (·.2))).map (fun iv => s!"{f}:{iv}")))
+  s!"cur={s.cur} act={pr act} rv={pr rvs} disk={commaNat (sortedNat s.disk)} pend={commaNat (sortedNat s.pending)} cache={",".intercalate cache} lock={if s.lock.isSome then 1 else 0} cmp={if s.compacting then 1 else 0} roll={",".intercalate marks}"
+
+/-- `StoreOption.Rollup` of the harness' source store, in minutes -/
+def targetsOf (ro : Nat) : List Nat := if ro == 0 then [] else if ro == 1 then [5] else [5, 60]
 
 def answer (d : D) (res : String) : D × String := (d, res ++ " | " ++ showState d)
 
@@ -130,10 +137,11 @@ def step' (d : D) (ws : List String) : D × String :=
                         allocLocked := Generated.C02.allocUnderCommitLock, findErrReleases := Generated.C02.findErrReleases,
                         pendFirst := Generated.C02.pendBeforeCreate, closeCAS := Generated.C02.closeIsCAS,
                         getReaderAtomic := Generated.C02.getReaderOneSection, listFirst := Generated.C02.listBeforeLive,
-                        threshold := th, rollupOn := ro == 1 },
+                        rollDelPerInterval := Generated.C02.rollupDelPerInterval,
+                        threshold := th, targets := targetsOf ro },
                st := St.init v0 f0, readers := [], ok := true } "ok"
     | some [v0, f0, th, ro, rc, cl, al] =>
-      answer { cfg := { recheck := rc == 1, cloneLocked := cl == 1, allocLocked := al == 1, threshold := th, rollupOn := ro == 1 },
+      answer { cfg := { recheck := rc == 1, cloneLocked := cl == 1, allocLocked := al == 1, threshold := th, targets := targetsOf ro },
                st := St.init v0 f0, readers := [], ok := true } "ok"
     | _ => (d, "bad-op")
   | _ =>
@@ -259,15 +267,40 @@ def step' (d : D) (ws : List String) : D × String :=
           answer d2 ("at=" ++ "+".intercalate rs)
         else (d, "bad-op")
     | _, _ => (d, "bad-op")
-  | ["rollupjob"] =>
-    -- family.rollup() whose targets are all skipped / failing: commits nothing, then its deferred
-    -- deleteObsoleteFiles (run to its end, unscheduled)
-    match step d.cfg d.st (.spawn .delObs []) with
-    | some s1 =>
-      let j := d.st.nJob
-      let s' := (List.range 200).foldl (fun s _ => (runJob d.cfg s j 64).1) s1
-      answer { d with st := s' } "ok"
+  | "rollupjob" :: oks =>
+    -- the real family.rollup(), unscheduled: GetLiveRollupFiles; for every target interval of the marks
+    -- whose target store is open (oks): doRollupWork = a snapshot of THIS family, one GetReader per marked
+    -- table that is still in level 0 (`v.GetFile(0, file)`), Close; the rollup-done commit; the deferred
+    -- deleteObsoleteFiles. A target whose source table cannot be opened fails (it is not ok).
+    match oks.mapM String.toNat? with
     | none => (d, "bad-op")
+    | some oks =>
+      let s0 := d.st
+      let marks := (s0.ver s0.cur).rollup
+      let srcOf (iv : Nat) : List Nat :=
+        ((marks.filter (fun p => p.2 == iv)).map (·.1)).filter
+          (fun f => (s0.ver s0.cur).files.any (fun m => m.no == f && m.level == 0))
+      let ok := (rollupIntervals marks).filter (fun iv => oks.contains iv && (srcOf iv).all (getReaderOk s0))
+      match step d.cfg s0 (.spawn .rollupJob (ok.map (fun iv => (iv, [])))) with
+      | none => (d, "bad-op")
+      | some s1 =>
+        let j := s0.nJob
+        match step d.cfg s1 (.jstep j) with
+        | none => (d, "bad-op")
+        | some s2 =>
+          let work (s : Option St) (iv : Nat) : Option St := do
+            let s ← s
+            let i := s.nSnap
+            let sa ← step d.cfg s .acquire
+            let sr ← (srcOf iv).foldl (fun (acc : Option St) f => acc.bind (fun x => step d.cfg x (.getReader i f))) (some sa)
+            let s3 ← step d.cfg sr (.sDec i)
+            let s4 ← step d.cfg s3 (.sRemove i)
+            step d.cfg s4 (.sRel i)
+          match ok.foldl work (some s2) with
+          | none => (d, "bad-op")
+          | some s3 =>
+            let s' := (List.range 200).foldl (fun s _ => (runJob d.cfg s j 64).1) s3
+            answer { d with st := s' } "ok"
   | "par" :: ts =>
     -- commits released together: their critical sections are serialised by the version-set mutex;
     -- the resulting state does not depend on the order (flushes / rollup-done commits only)
@@ -287,7 +320,7 @@ def step' (d : D) (ws : List String) : D × String :=
   | ["spawn", "delobs"] => act d (.spawn .delObs []) s!"job={d.st.nJob}"
   | "spawn" :: "rollup" :: fs =>
     match fs.mapM String.toNat? with
-    | some l => act d (.spawn .rollupDone (l.map (fun f => (f, [])))) s!"job={d.st.nJob}"
+    | some l => act d (.spawn .rollupDone (l.map (fun f => (f, [5])))) s!"job={d.st.nJob}"
     | none => (d, "bad-op")
   | ["other", what] =>
     -- one whole operation of another family of the same store (`Act.env`): what it does to the
